@@ -1340,7 +1340,12 @@ fn main_case(thorough: bool) -> impl Fn(u64, &mut Rng, &mut Report) + Sync {
             3 | 4 | 5 | 11 => "boundary",
             _ => "small",
         };
+        // every fifth case writes its segment through SingleSegmentIndexWriter
+        let single = case % 5 == 4;
+        set_single_segment_writer(single);
+        rep.observe("writer_kind", if single { "SingleSegmentIndexWriter" } else { "IndexWriter" });
         run_plan(case, rng, rep, plan, thorough);
+        set_single_segment_writer(false);
     }
 }
 
